@@ -194,6 +194,102 @@ CHECKS["C36"] = (
     "numpy numerics and the outer-product ordering are not decided.",
 )
 
+CHECKS["C06"] = (
+    "complex-taint abstract domain over reaching definitions for every sqrt(sum(x**2)) normalisation in the package; "
+    "term normal form of the PRISM position phase per scan arm; angular-grid convention agreement; contraction axes",
+    "Decides necessary conditions for PRISM = multislice with any CTF: coefficient norms are taken of |x|^2 wherever "
+    "x is complex, position coefficients are exp(-2 pi i (x kx + y ky)) in both arms with matching axes, CTF "
+    "coefficients are evaluated at (|k| lambda, arctan2(ky, kx)) like the real-space probe, and the reduction "
+    "contracts the plane-wave axis.",
+    "Interpolation/window cropping equality and lazy reduction schemes are not decided.",
+)
+CHECKS["C12"] = (
+    "term normal forms (rational functions) of bin index / published sampling per detector subclass; argument-flow "
+    "agreement detector -> binning function in lazy and eager arms; comparison-operator agreement of the mask builders",
+    "Decides that the radial sampling and offset every radial detector publishes equal the width and start of the bins "
+    "it actually fills, that limits reach the mask/bin builders unchanged, and that both builders use the same "
+    "half-open [inner, outer) convention.",
+    "Equality of integrated intensities between detectors is numerical and not decided.",
+)
+CHECKS["C13"] = (
+    "term check of each axis' index computation against the offset/sampling its own axis metadata publishes; "
+    "alpha-equivalence of the radial and azimuthal arms under the axis renaming",
+    "Decides that limits are converted to bin indices with the sampling and offset of the axis they address, for both "
+    "axes, with one limits pair per bound.",
+    "int() truncation at edge-aligned limits is value-dependent and not decided.",
+)
+CHECKS["C14"] = (
+    "array-layout typestate {FFT_ORDER, CENTERED} evaluated under every flag valuation over all fftshift/ifftshift "
+    "uses and every DiffractionPatterns construction; parity domain for _ensure_parity; strictness/orientation rules "
+    "for bandlimit/block_direct",
+    "Decides that no shift is applied to an array already in the target layout, that every returned diffraction "
+    "pattern carries the flag matching its array, that angle-limited gpts have the requested parity on all paths, and "
+    "that block_direct masks strictly inside the radius.",
+    "Numerical crop equality and the value of the effective blocking radius are not decided.",
+)
+CHECKS["C15"] = (
+    "guarded-effect mirror (alpha-equivalence) check of _fft_interpolation_masks_1d; term normal forms of the "
+    "normalisation factors and of the shift-kernel phase; lazy/eager twin of Waves.downsample",
+    "Decides the structural symmetry needed for up-then-down = identity, the 'values' factor new/old size with sizes "
+    "read at the right program points, untouched arrays for intensity/amplitude, and the shift phase -2 pi k x.",
+    "The numerical identities are not decided.",
+)
+CHECKS["C16"] = (
+    "term normal form with registered sum reductions for the bilinear renormalisation; folding of sigma/depth per "
+    "axis kind; lazy/eager twin with mode and depth rules",
+    "Decides that interpolated patterns are renormalised to the sum of exactly the array that was interpolated over "
+    "the same axes, that the source-size filter only acts on scan axes with sigma/sampling, and that lazy map_overlap "
+    "and eager filter agree including mode='wrap' and a sufficient overlap depth.",
+    "Images.interpolate identities are not decided.",
+)
+CHECKS["C26"] = (
+    "term comparison of the eigen-path and expm-path phase scalars; similarity-transform rule for the eigenvector "
+    "matrix; read-only-view rule for pandas-derived arrays; lazy/eager twin comparator",
+    "Decides that both Bloch-wave paths exponentiate the same scalar multiple of the same matrix and apply the same "
+    "M..M^-1 similarity, that in-place scaled arrays are writable copies, and that lazy and eager arms call the same "
+    "kernels with the same arguments.",
+    "Sum of intensities = 1 and the zero-thickness limit are numerical (unitarity of eigh) and not decided.",
+)
+CHECKS["C27"] = (
+    "symbolic shape (rank) domain per centering arm; parity-class evaluation of each arm against the International "
+    "Tables condition; agreement of the centering translation table with the masks; mask application dataflow",
+    "Decides the centering clause: every arm returns a rank-1 mask of the right condition, the translation table "
+    "allows exactly the reflections the masks keep, and StructureFactor applies the mask of the resolved centering.",
+    "Friedel symmetry, realness of the reconstructed potential and lattice-translation invariance are numerical sums "
+    "and not decided.",
+)
+CHECKS["C28"] = (
+    "symbolic cardinality/shape domain for scan positions; factor rule on the normal form of every update increment; "
+    "structural form of the Fourier projection and its error term; pairing dataflow of the operator pipeline",
+    "Decides that J explicit positions stay J positions, that every r-PIE style increment has the exit-wave "
+    "difference as a factor (fixed point), that the Fourier projection keeps the phase and replaces the amplitude, "
+    "and that positions/patterns are read and written with the same index.",
+    "Numerical idempotence and the position-correction callable are not decided.",
+)
+CHECKS["C38"] = (
+    "path-sensitive copy-guard typestate over the FFTW dispatchers; flag-forwarding agreement; array ownership "
+    "(fresh and dead-after) at every literal overwrite_x/in_place=True site, followed through closures and callers; "
+    "exact table for get_dtype",
+    "Decides the ownership clause of backend independence: an FFT may only overwrite an array the caller owns and no "
+    "longer reads, on every path and at every call site, so switching backend/overwrite mode cannot change inputs.",
+    "Numerical agreement between backends and precisions is not decided.",
+)
+CHECKS["C31"] = (
+    "def-use slices of the Poisson rate and the returned counts (clip at zero, casts only, rate = signal x dose per "
+    "arm); seed-flow rule for every generator constructed in the block function; block-seed rule",
+    "Decides non-negativity/wholeness and the dose x signal rate structurally, reproducibility (every generator seeded "
+    "from self.seeds, no global state), and detects block-invariant seeding of per-block generators (recorded as a "
+    "known finding).",
+    "Statistical independence and the expectation value are properties of numpy's generators and not decided.",
+)
+CHECKS["C40"] = (
+    "array-layout typestate shared with C14, evaluated end-to-end through the coordinate properties for every "
+    "(flag, units); coordinate-axis pairing rules of _com",
+    "Decides the coordinate clause: the coordinates that weight the intensities are in the same layout as the array "
+    "for both units and both flag values, x weights rows and y weights columns.",
+    "_integrate_gradient_2d exactness and the normalisation of the moment are numerical and not decided.",
+)
+
 NOT_APPLICABLE = {
     "C25": "consistency of each parametrization's real- and reciprocal-space forms is an analytic Fourier-"
            "transform identity between tabulated-coefficient kernels plus monotonicity over table data; no "
